@@ -299,12 +299,12 @@ def jvp_cases(draw):
             # pow_symm documents its derivative as accurate only for well separated or EXACTLY equal eigenvalues;
             # exactly equal eigenvalues are only representable for axis-aligned tensors
             mag = draw(gen.logfloat(-2, 2))
-            a = draw(st.floats(0.5, 1.0))
+            a = draw(gen.floats(0.5, 1.0))
             if cls == 'distinct_wide':
-                lam = [a, a * (1.5 + draw(st.floats(0.0, 0.5))), a * (2.6 + draw(st.floats(0.0, 1.0)))]
+                lam = [a, a * (1.5 + draw(gen.floats(0.0, 0.5))), a * (2.6 + draw(gen.floats(0.0, 1.0)))]
                 rot = draw(gen.rotation3())
             else:
-                c = a * (1.5 + draw(st.floats(0.0, 1.5)))
+                c = a * (1.5 + draw(gen.floats(0.0, 1.5)))
                 lam = {'double_low': [a, a, c], 'double_high': [a, c, c], 'triple': [a, a, a]}[cls]
                 rot = draw(gen.rotation3(('axis',)))
             Q = onp.array(rot['R'])
@@ -366,7 +366,7 @@ def check_jvp(case):
 def helper_cases(draw):
     mag = draw(gen.logfloat(-12, 2))
     kind = draw(st.sampled_from(['general', 'symmetric', 'skew-heavy', 'traceless', 'planestrain']))
-    v = draw(st.lists(st.floats(-1, 1), min_size=9, max_size=9))
+    v = draw(st.lists(gen.floats(-1, 1), min_size=9, max_size=9))
     A = onp.array(v).reshape(3, 3)
     if kind == 'symmetric':
         A = 0.5 * (A + A.T)
@@ -459,14 +459,14 @@ def check_helpers(case):
 def dense_cases(draw, nmax=6):
     n = draw(st.integers(2, nmax))
     kind = draw(st.sampled_from(['spd', 'nonsymmetric', 'near-identity', 'repeated']))
-    condexp = draw(st.floats(0.0, 6.0))
-    lam = onp.array(sorted(draw(st.lists(st.floats(0.0, 1.0), min_size=n, max_size=n))))
+    condexp = draw(gen.floats(0.0, 6.0))
+    lam = onp.array(sorted(draw(st.lists(gen.floats(0.0, 1.0), min_size=n, max_size=n))))
     lam = 10.0 ** (-condexp * lam)
     if kind == 'repeated' and n >= 2:
         lam[1] = lam[0]
     if kind == 'near-identity':
         lam = 1.0 + 1e-6 * (lam - 0.5)
-    G = onp.array(draw(st.lists(st.floats(-1, 1), min_size=n * n, max_size=n * n))).reshape(n, n)
+    G = onp.array(draw(st.lists(gen.floats(-1, 1), min_size=n * n, max_size=n * n))).reshape(n, n)
     Q, _ = onp.linalg.qr(G + 2 * onp.eye(n))
     if kind == 'nonsymmetric':
         Sm = onp.eye(n) + 0.3 * G / max(1.0, onp.abs(G).sum(axis=1).max())
